@@ -218,17 +218,27 @@ output_instance(std::ostream &out, int indent_level, CPPScope *scope,
 
   std::string bracketsstr = brackets.str();
 
-  if (prename.find_first_of("*&") == std::string::npos) {
-    // No declarator operator in front of the name (at most the cv-qualifiers
-    // of a const array type, which apply to the elements).
+  // Leading cv-qualifiers (of a const array type) apply to the elements and
+  // stay in front of the whole declarator.
+  std::string qualifiers;
+  std::string declarator = prename;
+  while (declarator.compare(0, 6, "const ") == 0 ||
+         declarator.compare(0, 9, "volatile ") == 0) {
+    size_t len = (declarator[0] == 'c') ? 6 : 9;
+    qualifiers += declarator.substr(0, len);
+    declarator = declarator.substr(len);
+  }
+
+  if (declarator.empty()) {
     _element_type->output_instance(out, indent_level, scope, complete,
-                                   prename, name + bracketsstr);
+                                   qualifiers, name + bracketsstr);
   } else {
     // A pointer or reference to an array: the pointer/reference operator
     // binds less tightly than the brackets, so it needs parentheses, as in
-    // int (*a)[3] or int (&a)[3].
+    // int (*a)[3] or int const (&a)[3].
     _element_type->output_instance(out, indent_level, scope, complete,
-                                   "", "(" + prename + name + ")" + bracketsstr);
+                                   qualifiers,
+                                   "(" + declarator + name + ")" + bracketsstr);
   }
 }
 
